@@ -256,7 +256,7 @@ def oracle(ctx, extra):
                     cfg["plugins"] = list(dict.fromkeys((need or ["abbr", "footnotes"]) + cfg["plugins"]))
                 check(w, cfg, doc, fails, limit)
                 n += 1
-            if i % 25 == 0:
+            if i % 10 == 0:
                 # conversion with a file context (Markdown.read): include directives with every kind of target and encoding
                 style = r.choice(["fenced", "rst"])
                 dist["file-context"] = dist.get("file-context", 0) + 1
